@@ -306,6 +306,57 @@ func c03Tables(run *PropRun) {
 				nOb++
 			}
 		}
+		// (1f) ESC immediately followed by a control byte: the key that byte gives alone (Ctrl-letter, Tab, Enter, Backspace),
+		// with Alt added - the modifiers it has alone are kept (evaluated with the timeout passed, so that a byte which
+		// also starts a longer sequence of this description is decided)
+		{
+			altM := e.constInt(modPath, "ModAlt")
+			bad := ""
+			badByte := byte(0)
+			driverExpire = true
+			for b := byte(1); b < 32 && bad == ""; b++ {
+				if b == 0x1b {
+					continue
+				}
+				defined := false // ESC b is (the start of) a key sequence of this description: that key wins (linux: ESC TAB is Backtab)
+				for _, k := range seqs {
+					if strings.HasPrefix(k, string([]byte{0x1b, b})) {
+						defined = true
+					}
+				}
+				if defined {
+					continue
+				}
+				alone, w1 := decodeDriver(db, fs, tp, string([]byte{b}))
+				alt, w2 := decodeDriver(db, fs, tp, string([]byte{0x1b, b}))
+				if w1 != "" || w2 != "" || len(alone) != 1 {
+					if w1 != "" || w2 != "" {
+						bad = fmt.Sprintf("byte 0x%02x: %s %s", b, w1, w2)
+						badByte = b
+					}
+					continue
+				}
+				if len(alt) != 1 || alt[0].Key != alone[0].Key || alt[0].Mod != alone[0].Mod|altM {
+					bad = fmt.Sprintf("byte 0x%02x alone is %v, ESC 0x%02x is %v", b, alone, b, alt)
+					badByte = b
+				}
+			}
+			driverExpire = false
+			g := run.AddObligation(fmt.Sprintf("keytable[%s]/alt-control-byte", te.Name), "table", BoolT(bad == ""),
+				"ESC followed by a control byte decodes (after the timeout) to the key that byte gives alone, with the same modifiers plus Alt "+bad)
+			g.ReplayGo = replayKeyTableImports(te.Name, []string{"bytes"}, fmt.Sprintf(`
+	s.cells.Resize(80, 24)
+	b := byte(%d)
+	alone := s.collectEventsFromInput(bytes.NewBuffer([]byte{b}), true)
+	alt := s.collectEventsFromInput(bytes.NewBuffer([]byte{0x1b, b}), true)
+	if len(alone) != 1 || len(alt) != 1 { fail("byte 0x%%02x: %%d event(s) alone, %%d after ESC", b, len(alone), len(alt)); return }
+	k0, ok0 := alone[0].(*EventKey)
+	k1, ok1 := alt[0].(*EventKey)
+	if !ok0 || !ok1 || k1.Key() != k0.Key() || k1.Modifiers() != k0.Modifiers()|ModAlt {
+		fail("byte 0x%%02x alone is key %%d mod %%d; ESC 0x%%02x is key %%d mod %%d: want the same key with Alt added", b, k0.Key(), k0.Modifiers(), b, k1.Key(), k1.Modifiers()); return
+	}`, badByte))
+			nOb++
+		}
 		// (1e) ESC ESC and the timeout: the second ESC is a key typed right after an ESC, so it comes out as Esc with Alt
 		{
 			kesc := e.constInt(modPath, "KeyEsc")
